@@ -1,3 +1,6 @@
 //! Shared helpers for the vserver check parts (C14).
+pub mod cells;
+pub mod matrix;
+pub mod model;
 pub mod table;
 pub mod world;
